@@ -50,6 +50,8 @@ From CG Require Import Model.Diag.
 From CG Require Import Model.EmitZsh.
 From CG Require Import Model.EmitPwsh.
 From CG Require Import Model.EmitFish.
+From CG Require Import Model.Main.
+From CG Require Import Spec.Undercut.
 (* add new Require lines above this line *)
 Require Import ExtrOcamlBasic ExtrOcamlString.
 Extraction Language OCaml.
@@ -76,6 +78,7 @@ Separate Extraction
   KnownC01.greedy_shadow
   Domain.C01_domain
   Domain.C01_env_ok
+  Domain.C01_tail_only
   Ambig.find
   Quote.make_string_constant
   ShellDQ.read
@@ -170,6 +173,7 @@ Separate Extraction
   EmitData.data_of_dfa
   InvocationsSub.spec_run_sw
   Compiler.compile_bash
+  Compiler.compile_data
   Compiler.mkoracles
   Diag.render
   Diag.error_messages
@@ -177,5 +181,7 @@ Separate Extraction
   EmitZsh.script_of_dfa
   EmitPwsh.script_of_dfa
   EmitFish.script_of_dfa
+  Main.run
+  Undercut.undercut
   (* add new roots above this line *)
   Prelude.pow2.
